@@ -245,6 +245,10 @@ def kernel(cfg, pos, named, n, draws, observed, meta_bi):
     return res
 
 
+class InjectedFailure(RuntimeError):
+    pass
+
+
 class RecOp:
     """Picklable recording callable; the copy that runs 'in a worker' still logs here."""
 
@@ -284,6 +288,12 @@ class RecOp:
             rs_after = rs_digest(rs)
         meta_bi = meta.get('batch_index') if isinstance(meta, dict) and cfg.get('use_meta') \
             else None
+        if cfg.get('fail_bi') is not None and meta_bi == cfg['fail_bi'] and \
+                not getattr(self, 'failed', False):
+            # injected fault: the simulator fails ONCE, for one particular batch (a crashed
+            # binary, a full disk, Ctrl-C); the exception surfaces where the batch is fetched
+            self.failed = True
+            raise InjectedFailure('injected simulator failure in batch %d' % meta_bi)
         out = kernel(cfg, args, kw, n, draws, observed, meta_bi)
         REC.log(node=cfg['node'], kind=cfg['kind'], pos=[dg(a) for a in args],
                 named={k: dg(v) for k, v in kw.items()},
@@ -614,7 +624,9 @@ def build_model(elfi, spec, order=None, tag=None):
             continue
         if kind == 'ext':
             op = elfi.tools.vectorize(elfi.tools.external_operation('echo {0} {seed}'))
-            refs[name] = elfi.Operation(op, *parents, model=m, name=name)
+            # a (second) Simulator: stochastic nodes are the ones that are handed the batch
+            # generator, from which ELFI derives the {seed} of the command line
+            refs[name] = elfi.Simulator(op, *parents, model=m, name=name)
             if n.get('uses_meta'):
                 refs[name].uses_meta = True
             continue
